@@ -59,6 +59,7 @@ type Contract struct {
 	Lemma      bool
 	NoFrame    bool
 	NoWrap     bool
+	NoWrapAssumed bool
 	RealDiv    bool
 	Uses       []ast.Expr
 	Line       string
@@ -313,6 +314,9 @@ func (c *Ctx) parseContracts(p *packages.Package) error {
 						cur.RealDiv = true
 					case "nowrap":
 						cur.NoWrap = true
+						if rest == "assumed" {
+							cur.NoWrapAssumed = true
+						}
 					case "noframe":
 						cur.NoFrame = true
 					case "|":
